@@ -12,6 +12,7 @@ A check module (vp/checks/cXX.py) exposes
 Everything random is drawn by Hypothesis; bulk arrays are regenerated inside run_case from integer
 seeds stored in the case, so a case is small, hashable and replayable without Hypothesis.
 """
+import contextlib
 import hashlib
 import json
 import os
@@ -133,3 +134,29 @@ def load_known(prop_id):
 
 def eprint(*a):
     print(*a, file=sys.stderr, flush=True)
+
+
+@contextlib.contextmanager
+def debug_logging():
+    """Process state a caller may legitimately have: logging switched on at DEBUG level for every logger (a script that did
+    logging.basicConfig(level=logging.DEBUG)). Messages go to a NullHandler; levels and the global disable are restored."""
+    import logging
+    root = logging.getLogger()
+    names = ("ibllib", "ibldsp", "ibldsp.waveform_extraction")
+    prev_disable = logging.root.manager.disable
+    prev = {n: logging.getLogger(n).level for n in names}
+    prev_root = root.level
+    h = logging.NullHandler()
+    logging.disable(logging.NOTSET)
+    root.addHandler(h)
+    root.setLevel(logging.DEBUG)
+    for n in names:
+        logging.getLogger(n).setLevel(logging.DEBUG)
+    try:
+        yield
+    finally:
+        for n, lv in prev.items():
+            logging.getLogger(n).setLevel(lv)
+        root.setLevel(prev_root)
+        root.removeHandler(h)
+        logging.disable(prev_disable)
